@@ -2,7 +2,7 @@
    Only theorem statements closed by `exact` (or a one-line combination), each followed by
    Print Assumptions; plus the non-vacuity examples and the refutation witness of F6. *)
 From Snax Require Import Base.Prelude Model.Tsl Model.C05Copy Proofs.TslProofs
-  Proofs.C05MemProofs Proofs.C05MainProofs Proofs.C05ExtraProofs Model.C05Dyn Proofs.C05DynProofs.
+  Proofs.C05MemProofs Proofs.C05MainProofs Proofs.C05ExtraProofs Model.C05Dyn Proofs.C05DynProofs Proofs.C05DynCopyProofs.
 
 (* For all ranks, tile depths, shapes, static layouts with positive bounds and equal tile bounds,
    element sizes and offsets: under Safe_lccb, a destination layout that does not self-overlap and
@@ -76,6 +76,48 @@ Proof.
   exact (lower_dyn_static src dst el so do_ smd dmd Hs Hd).
 Qed.
 Print Assumptions C05_lower_dyn_static.
+
+(* copy_dynamic_partial: layouts whose outermost tile bounds are dynamic (static steps and offsets),
+   resolved on ANY run-time shape that the inner tiles divide (rshape = shape_of (resolve src rshape)):
+   the code of the run-time lowering moves every element of the resolved layouts.  Partial: besides
+   Safe_lccb on the resolved layouts, the common block and the value-membership tests must not depend
+   on the dynamic bounds (two decidable equalities). *)
+Theorem C05_copy_dynamic_partial :
+  forall (src dst : layout) (el so do_ : Z) (rshape : list Z) (smd dmd : rtmd),
+    let rs := resolve src rshape in
+    let rd := resolve dst rshape in
+    layout_okb rs = true -> layout_okb rd = true -> equal_tile_bounds rs rd = true ->
+    safe_lccb rs rd = true -> 0 < el -> offset src = Some so -> offset dst = Some do_ ->
+    rshape = shape_of rs ->
+    lccb src dst 1 = lccb rs rd 1 ->
+    map (fun s => value_in s (lccb rs rd 1)) (all_strides src) =
+    map (fun s => value_in s (lccb rs rd 1)) (all_strides rs) ->
+    self_overlaps rd = false ->
+    exists c, lower_dyn src dst el rshape smd dmd = Some c /\
+      forall ps pd, disjoint_footprints rs rd el ps pd (shape_of rs) ->
+      forall (m : mem) (idx : list Z) (k : Z), In idx (row_major (shape_of rs)) -> 0 <= k < el ->
+        run ps pd c m (pd + elem_addr rd el idx + k) = m (ps + elem_addr rs el idx + k).
+Proof.
+  intros src dst el so do_ rshape smd dmd rs rd Hs Hd Hetb Hsafe Hel Hso Hdo Hsh Hl Hv Hov.
+  apply layout_okb_ok in Hs, Hd.
+  destruct (copy_dynamic_partial_sec src dst el so do_ rshape smd dmd Hs Hd Hetb Hsafe Hel Hso Hdo Hsh Hl Hv)
+    as [c [Hc H]].
+  exists c. split; [exact Hc|]. intros ps pd. apply H. exact (self_overlaps_inj rs rd Hd Hetb Hov).
+Qed.
+Print Assumptions C05_copy_dynamic_partial.
+
+(* non-vacuity: [?, 4] -> (4, 1) to the padded [?, 4] -> (8, 1) with 12 elements at run time *)
+Example C05_dynamic_nonvacuous :
+  let src := mkLayout [[(Some 4, None); (Some 1, Some 4)]] (Some 0) in
+  let dst := mkLayout [[(Some 8, None); (Some 1, Some 4)]] (Some 2) in
+  let rs := resolve src [12] in let rd := resolve dst [12] in
+  layout_okb rs = true /\ layout_okb rd = true /\ equal_tile_bounds rs rd = true /\ safe_lccb rs rd = true /\
+  [12] = shape_of rs /\ lccb src dst 1 = lccb rs rd 1 /\
+  map (fun s => value_in s (lccb rs rd 1)) (all_strides src) = map (fun s => value_in s (lccb rs rd 1)) (all_strides rs) /\
+  self_overlaps rd = false /\
+  lower_dyn src dst 2 [12] None None = Some (CDma2 (0, []) (4, []) 8 8 16 3).
+Proof. repeat split; reflexivity. Qed.
+Print Assumptions C05_dynamic_nonvacuous.
 
 (* MatchSimpleCopy (both layouts identity): one 1-D transfer moves every row-major element *)
 Theorem C05_simple_copy_correct :
